@@ -64,3 +64,16 @@ impl PartialOrdSpecImpl for Timestamp {
     }
 }
 pub type TimestampOpt = Option<Timestamp>;
+impl Eq for Timestamp {}
+impl Ord for Timestamp {
+    #[verifier::external_body]
+    fn cmp(&self, other: &Self) -> (r: Ordering) { self._p.cmp(&other._p) }
+}
+impl OrdSpecImpl for Timestamp {
+    open spec fn obeys_cmp_spec() -> bool { true }
+    open spec fn cmp_spec(&self, other: &Self) -> Ordering {
+        if ts_instant(*self) < ts_instant(*other) { Ordering::Less }
+        else if ts_instant(*self) == ts_instant(*other) { Ordering::Equal }
+        else { Ordering::Greater }
+    }
+}
